@@ -335,6 +335,9 @@ class G:
         it, ty = self.pick(LEN_ITERS if withlen else NOLEN_ITERS)
         if self.chance(15):
             it, ty, target = "ct", "str", None
+        if "raise" in self.f and self.chance(8):
+            # the iterable itself raises: nothing of this loop was entered, an enclosing loop's `loop` is untouched
+            it, ty, withlen = "boom(%s)" % self.pick(["Boom", "Boom2", "ValueError"]), "str", False
         tv = self.uid("x")
         if it == "ct":
             t2 = self.uid("y")
@@ -472,6 +475,9 @@ class G:
         bsc = Scope("cbody", sc)
         bsc.defs = dict(sc.defs)
         bsc.vars = list(sc.vars) + [(a, "str") for a in wc["body_args"]]
+        kwrest = self.chance(15)
+        if kwrest:
+            bsc.vars.append(("bkw", "any"))  # a ** catch-all of the body: a parameter like the others
         bsc.foreign = {v for v, _ in sc.vars}
         bsc.has_caller = sc.has_caller  # inside the body, `caller` is the caller of the enclosing callable
         defs = []
@@ -486,11 +492,19 @@ class G:
                 dnode["decorator"] = self.pick(["deco", "deco2"])  # still reachable as caller.<name>
             defs.append(dnode)
         body = self.body(bsc, depth + 1, minlen=1, allow_empty=False)
+        empty = not wc["defs"] and self.chance(12)
+        if empty:
+            body = []  # a call with no content at all (also written self-closing)
         spelling = "call"
         if info.get("top") and self.chance(50) and not info["star"]:
             spelling = "ns"  # (defs with *args - hence keyword-only parameters - are called with the <%call> spelling)
+        sig = list(wc["body_args"])
+        if len(sig) == 2 and self.chance(30):
+            sig = [sig[0], "*", sig[1]]  # the callee passes body arguments by keyword: a keyword-only one works as well
         node = {"t": "ccall", "spelling": spelling, "ns": self.pick(["self", "local"]), "target": name,
-                "body_args": ", ".join(wc["body_args"]) or None, "body": body, "defs": defs}
+                "body_args": ", ".join(sig + (["**bkw"] if kwrest else [])) or None, "body": body, "defs": defs}
+        if empty and self.chance(50):
+            node["selfclose"] = True
         cx = [a for a in wc["body_args"] if a.startswith("cx")]
         if cx and info["req"]:
             self._forced = [self.pick([cx[0], "%s + '!'" % cx[0], "ident(%s)" % cx[0]])]
